@@ -40,13 +40,16 @@ func (l *scriptedLayer) LinkFlow() gopacket.Flow       { return gopacket.Flow{} 
 func (l *scriptedLayer) NetworkFlow() gopacket.Flow    { return gopacket.Flow{} }
 func (l *scriptedLayer) TransportFlow() gopacket.Flow  { return gopacket.Flow{} }
 
-const scriptedOps = 15
+// scriptedOps is the number of opcodes in use: 15 for the lazy/eager comparison (C03), 17 for the bookkeeping oracle (C01).
+// Opcodes 15 and 16 - a decoder that names its next decoder and fails afterwards - are within the PacketBuilder contract,
+// but an eager packet has run the next decoder by then and a lazy one never will: a difference by design, outside C03.
+var scriptedOps = 15
 
 func decodeScripted(data []byte, p gopacket.PacketBuilder) error {
 	if len(data) < 2 {
 		return errors.New("scripted: short step")
 	}
-	op, n := data[0]%scriptedOps, int(data[1]%4)
+	op, n := data[0]%byte(scriptedOps), int(data[1]%4)
 	if 2+n > len(data) {
 		p.SetTruncated()
 		n = len(data) - 2
@@ -111,6 +114,18 @@ func decodeScripted(data []byte, p gopacket.PacketBuilder) error {
 	case 13:
 		p.AddLayer(l)
 		return p.NextDecoder(layerTypeScriptedB) // by layer type: looked up in the registry
+	case 15: // names the next decoder successfully and fails afterwards
+		p.AddLayer(l)
+		if err := p.NextDecoder(gopacket.LayerTypePayload); err != nil {
+			return err
+		}
+		return errors.New("scripted: error after NextDecoder succeeded")
+	case 16: // the same, failing by panic
+		p.AddLayer(l)
+		if err := p.NextDecoder(self); err != nil {
+			return err
+		}
+		panic("scripted: decoder panics after NextDecoder succeeded")
 	}
 	p.AddLayer(l)
 	return nil // stops without naming a next decoder
@@ -168,6 +183,7 @@ func c03Scripted(c *vlib.Ctx) {
 }
 
 func c01Scripted(c *vlib.Ctx) {
+	scriptedOps = 17
 	r := c.Rand(33)
 	ins := scriptedInputs(r, c.Pick(3, 4), c.Pick(4000, 100000))
 	chunk := 500
